@@ -44,6 +44,7 @@ type FuncContract struct {
 	File          string
 	NoFrame       bool
 	Ghosts        []string
+	Options       map[string]bool
 	Panics        []Clause // the function panics (does not return) exactly when one of these holds
 }
 
@@ -284,6 +285,11 @@ func (cs *ContractSet) loadFile(path string) error {
 				}
 				cur.Modifies = append(cur.Modifies, cl)
 			}
+		case "option":
+			if cur.Options == nil {
+				cur.Options = map[string]bool{}
+			}
+			cur.Options[rest] = true
 		case "trusted":
 			cur.Trusted = true
 			cs.Scan["trusted"]++
